@@ -1,5 +1,6 @@
 (* C18  Header values the library renders parse back to the same value.
-   Statements only; every proof is [exact <lemma of proofs/HeaderCodecProofs.v>]. *)
+   Statements only; every proof is [exact <lemma of proofs/HeaderCodecProofs.v>].
+   str = list Z (code points); [Ok v] / [Raised name] = returned / raised. *)
 From Coq Require Import ZArith List Bool String.
 Require Import PW.lib.Val PW.lib.Dec PW.model.HeaderCodec PW.proofs.HeaderCodecProofs.
 Import ListNotations.
@@ -37,3 +38,83 @@ Theorem C18_date_roundtrip :
     bind (time_to_http t) http_to_time = Ok t.
 Proof. exact date_roundtrip. Qed.
 Print Assumptions C18_date_roundtrip.
+
+(* ---- negotiation lists ----------------------------------------------- *)
+(* Q = the q-values, float / str_q = float() and str() on them, one = 1.0.
+   Assumed of them: float (str q) = q and str q has no ',' or ';'.
+   Names: no ',', no ";q=" inside, no blank at either end.  An absent q
+   reads back as 1.0 ([nego_value]). *)
+Theorem C18_negotiation_roundtrip :
+  forall (Q : Type) (float : list Z -> outcome Q) (str_q : Q -> list Z) (one : Q),
+    (forall q, float (str_q q) = Ok q) ->
+    (forall q, ~ In 44 (str_q q) /\ ~ In 59 (str_q q)) ->
+    forall items, items <> [] ->
+      Forall (fun it => nego_name_ok (fst it)) items ->
+      parse_negotiation Q float one (render_negotiation Q str_q items)
+      = Ok (map (nego_value Q one) items).
+Proof. exact negotiation_roundtrip. Qed.
+Print Assumptions C18_negotiation_roundtrip.
+
+(* parse_negotiation returns a value for every string, provided float()
+   raises nothing but ValueError (pair[0] always exists; IndexError and
+   ValueError of the quality are caught) *)
+Theorem C18_parse_negotiation_total :
+  forall (Q : Type) (float : list Z -> outcome Q) (one : Q),
+    (forall s, only "ValueError" (float s)) ->
+    forall s, exists v, parse_negotiation Q float one s = Ok v.
+Proof. exact parse_negotiation_total. Qed.
+Print Assumptions C18_parse_negotiation_total.
+
+(* ---- parameterised values -------------------------------------------- *)
+(* Full statement (false of the code, see the refutation below):
+     forall v ps, main_ok v -> keys ok and distinct -> values non-empty ->
+       parse_header (add_header value v, kwargs ps) = (v, ps).
+   Proved for all values (any spaces, semicolons, double quotes,
+   backslashes, '=', ',', any code points) under the one extra hypothesis that no value *followed
+   by another parameter* ends in a backslash. *)
+Theorem C18_param_roundtrip_partial :
+  forall v ps,
+    main_ok v -> Forall (fun kv => key_ok (fst kv)) ps -> NoDup (map fst ps) ->
+    Forall (fun kv => snd kv <> []) ps -> no_bs_before_next ps ->
+    bind (add_header_value (Some v) (map param_value ps)) parse_header
+    = Ok (v, ps).
+Proof. exact param_roundtrip. Qed.
+Print Assumptions C18_param_roundtrip_partial.
+
+(* in particular for values without any backslash *)
+Theorem C18_param_roundtrip_nobackslash :
+  forall v ps,
+    main_ok v -> Forall (fun kv => key_ok (fst kv)) ps -> NoDup (map fst ps) ->
+    Forall (fun kv => snd kv <> []) ps ->
+    Forall (fun kv => ~ In 92 (snd kv)) ps ->
+    bind (add_header_value (Some v) (map param_value ps)) parse_header
+    = Ok (v, ps).
+Proof. exact param_roundtrip_nobackslash. Qed.
+Print Assumptions C18_param_roundtrip_nobackslash.
+
+(* the escaping itself is inverted exactly, for every value *)
+Theorem C18_unescape_escape :
+  forall x, replace2 92 34 [34] (replace2 92 92 [92] (escape x)) = x.
+Proof. exact unescape_escape. Qed.
+Print Assumptions C18_unescape_escape.
+
+(* known finding param-backslash-before-next-param: add_header(
+   'form-data', a='x\', filename='b') reads back as one parameter a whose
+   value is x, a double quote, '; filename=', a double quote, b *)
+Theorem C18_param_roundtrip_refuted :
+  exists v ps,
+    main_ok v /\ Forall (fun kv => key_ok (fst kv)) ps /\ NoDup (map fst ps) /\
+    Forall (fun kv => snd kv <> []) ps /\
+    bind (add_header_value (Some v) (map param_value ps)) parse_header
+      = Ok (v, [(s2l "a", s2l "x""; filename=""b")]) /\
+    bind (add_header_value (Some v) (map param_value ps)) parse_header
+      <> Ok (v, ps).
+Proof. exact param_roundtrip_refuted. Qed.
+Print Assumptions C18_param_roundtrip_refuted.
+
+(* parse_header returns a value for every string (the generator always
+   yields the first part, so next() cannot raise StopIteration) *)
+Theorem C18_parse_header_total :
+  forall s, exists r, parse_header s = Ok r.
+Proof. exact parse_header_total. Qed.
+Print Assumptions C18_parse_header_total.
